@@ -74,6 +74,7 @@ class PointsTo:
         self.recording = False
         self.writes: list[WriteEvent] = []
         self.substores: list[WriteEvent] = []
+        self.reads: list[WriteEvent] = []
         self.calls: dict[tuple[str, int], set[str]] = defaultdict(set)  # (caller qual, id(call node)) -> callee quals / ext dotted
         self.call_nodes: dict[int, ast.Call] = {}
         self.unknown_ops: set[str] = set()
@@ -860,9 +861,18 @@ class PointsTo:
             ev = WriteEvent(fr.qual, node, op, frozenset(dst), f"{fr.module.relpath}:{getattr(node, 'lineno', 0)}", kind)
             (self.substores if kind == "substore" else self.writes).append(ev)
 
+    def record_read(self, fr: Frame, node: ast.AST, op: str, src) -> None:
+        if self.recording:
+            ts = self.tensors(src)
+            if ts:
+                self.reads.append(WriteEvent(fr.qual, node, op, frozenset(ts), f"{fr.module.relpath}:{getattr(node, 'lineno', 0)}", "read"))
+
     def tensor_method(self, o, name: str, args, kwargs, node, fr: Frame) -> set:
         if name in _NOT_TENSOR_METHODS:
             return set()
+        if self.recording and name not in T.SCALAR_METHODS:
+            src = set().union(*args, *kwargs.values()) if (args or kwargs) else set()
+            self.record_read(fr, node, name, src | ({o} if not name.endswith("_") else set()))
         if name in T.VIEW_METHODS:
             if name in ("split", "chunk", "unbind", "tensor_split"):
                 c = self.newc("tuple", fr, node)
@@ -1076,6 +1086,10 @@ class PointsTo:
     def call_torch(self, d: str, args, kwargs, node, fr: Frame) -> set:
         a0 = args[0] if args else set()
         name = d.split(".")[-1]
+        if self.recording:
+            inplace = name.endswith("_") and not name.startswith("__")
+            src = set().union(*(args[1:] if inplace else args), *kwargs.values()) if (args or kwargs) else set()
+            self.record_read(fr, node, d, src)
         if d in T.CONTEXT_FUNCS or d in T.SCALAR_FUNCS:
             return set()
         if d.startswith("torch._foreach_"):
